@@ -226,6 +226,11 @@ def rule_R3(ctx):
             if "MAX_TWAIT" in names and rel == "Gt" and ms:
                 guards["too-long"] = True
         if last[0] == "bool" and last[1][0] == "call" and last[1][1].endswith("::contains") and last[2] is False:
+            # the rate is judged as computed: 0.6 Hz rounds to 1 and 1500.4 Hz to 1500, neither is a rate in 1..=1500
+            if len(last[1][2]) == 2 and any(x[0] == "call" and x[1].rsplit("::", 1)[-1] in ("round", "floor", "ceil", "trunc", "round_ties_even")
+                                             for x in T.walk(last[1][2][1])):
+                guards["range"] = False
+                continue
             rc = T.strip(last[1][2][0])
             if rc[0] == "const" and isinstance(rc[1], (bytes, bytearray)) and len(rc[1]) >= 16 and "RangeInclusive<f64>" in (rc[3] or ""):
                 import struct
@@ -776,7 +781,14 @@ def rule_twins(ctx):
     TW.twin_agreement(ctx, ctx.program, "TW", ("huginn_net_tcp",), floor=4)
 
 
+def rule_tracker_lifetime(ctx):
+    """R2: reference timestamps and bad-frequency markers live the documented 30 s, every one of them (shared rule _ttl)"""
+    from . import _ttl
+    _ttl.cache_ttls(ctx, ctx.program, "R2", ("huginn_net_tcp",), 4)
+
+
 def run(ctx):
+    rule_tracker_lifetime(ctx)
     rule_later_timestamp(ctx)
     rule_twins(ctx)
     rule_R8(ctx)
